@@ -2,6 +2,7 @@
 //!   ops.txt      one op per line for the Lean driver
 //!   impl.out     the implementation's answer to each op (what the model must reproduce)
 //!   oracle.json  property clauses checked directly on the implementation + distribution
+pub mod dispgen;
 pub mod netgen;
 pub mod prng;
 pub mod proto;
